@@ -23,9 +23,9 @@ Assumed of the id function (`HashOk`): injective, `hash [] = empty-tree id`, nev
 Domain (`ValidOp`/`ValidF`): non-empty paths of non-empty slash-free components; upserts of a
 non-tree kind (blob, executable, link, commit; a null id makes a placeholder = nothing) or of kind
 `Tree` with the id of a stored tree (a graft, `upsert_tree_refines`); `set_root` trees are
-canonical stored trees; cursor operations need a live cursor. Outside: kind `Tree` with the
-empty-tree id (an entry git never writes) and with the NULL id — for the latter the refinement
-is FALSE of the code (`null_tree_placeholder_blocks_edits`, a recorded finding).
+canonical stored trees; cursor operations need a live cursor. Also covered: kind `Tree` with the
+NULL id (an explicit placeholder directory, `upsert_null_tree_refines`). Outside: kind `Tree`
+with the empty-tree id (an entry git never writes).
 -/
 namespace GixModel.Props.C04
 open GixModel GixModel.Tree GixModel.C04
@@ -49,18 +49,35 @@ goes below it later) refines `Spec.graft`: the stored tree's whole content appea
 theorem upsert_tree_refines (ed : Ed) (hinv : Inv ed) (p : Path) (hp : ValidPath p) (id : Bytes)
     (ts : List Entry) (hst : aget id ed.store = some ts) (hne : id ≠ emptyTreeId) :
     ∃ ed', upsert ed p 0o040000 id = .ok ed' ∧ Inv ed' ∧ ed'.store = ed.store ∧
-      abs ed' = Spec.C04.graft p (absStore ed.store ts) (abs ed) := upsert_tree_spec hinv hp hst hne
+      abs ed' = Spec.C04.graft p (absStore ed.store ts) (abs ed) := by
+  have hnn : id ≠ nullId := by
+    intro e
+    rw [e, hinv.store.nonull] at hst
+    cases hst
+  exact upsert_tree_spec hinv hp (Or.inr ⟨hnn, hst⟩) hne
 
-/-- An explicit NULL-id tree placeholder is NOT refined: the upsert itself succeeds, but the next
-edit below it fails with a find error (`find_tree(null)`), although the documentation of `upsert`
-says "paths leading through [placeholders] will not be considered a problem". Witness, replayed
-against the real code by the harness corpus (known finding, see known-findings.txt). -/
-theorem null_tree_placeholder_blocks_edits :
+/-- `Editor::upsert(path, Tree, null)`: an explicit null-id tree placeholder is an empty directory —
+it denotes nothing (and is dropped at `write`), whatever was at or below `path` is gone, and —
+with the repair recorded in known-findings.txt — later edits below it work like below any
+directory (they are covered by `history_refines`: the invariant is kept). -/
+theorem upsert_null_tree_refines (ed : Ed) (hinv : Inv ed) (p : Path) (hp : ValidPath p) :
+    ∃ ed', upsert ed p 0o040000 nullId = .ok ed' ∧ Inv ed' ∧ ed'.store = ed.store ∧
+      abs ed' = Spec.C04.graft p Spec.C04.empty (abs ed) := by
+  obtain ⟨ed', h1, h2, h3, h4⟩ :=
+    upsert_tree_spec hinv hp (id := nullId) (ts := []) (Or.inl ⟨rfl, rfl⟩) (by decide)
+  refine ⟨ed', h1, h2, h3, ?_⟩
+  rw [h4]
+  congr 1
+  funext q
+  exact lookupIn_nil _ _ _
+
+-- the former failing input: a placeholder directory, then an edit below it — now it is there
+example :
     (match upsert emptyEd [[97]] 0o040000 nullId with
      | .ok ed1 => (match upsert ed1 [[97], [98]] 0o100644 [1] with
-                   | .errFind _ => true
-                   | _ => false)
-     | _ => false) = true := by decide +kernel
+                   | .ok ed2 => abs ed2 [[97], [98]]
+                   | _ => none)
+     | _ => none) = some (0o100644, [1]) := by decide +kernel
 
 /-- `Editor::remove(path)` refines `Spec.remove` (the leaf, or the whole sub-tree, disappears). -/
 theorem remove_refines (ed : Ed) (hinv : Inv ed) (p : Path) (hp : ValidPath p) :
@@ -111,8 +128,12 @@ theorem cursor_upsert_tree_refines (ed : Ed) (hinv : Inv ed) (pfx : Path) (t : L
     (hst : aget id ed.store = some ts) (hne : id ≠ emptyTreeId) :
     ∃ ed', cursorUpsert ed pfx p 0o040000 id = .ok ed' ∧ Inv ed' ∧ ed'.store = ed.store ∧
       (aget pfx ed'.trees).isSome = true ∧
-      abs ed' = Spec.C04.graft (pfx ++ p) (absStore ed.store ts) (abs ed) :=
-  cursorUpsert_tree_spec hinv hP hp hst hne
+      abs ed' = Spec.C04.graft (pfx ++ p) (absStore ed.store ts) (abs ed) := by
+  have hnn : id ≠ nullId := by
+    intro e
+    rw [e, hinv.store.nonull] at hst
+    cases hst
+  exact cursorUpsert_tree_spec hinv hP hp (Or.inr ⟨hnn, hst⟩) hne
 
 /-- `Cursor::remove` refines `Spec.remove (pfx ++ p)`. -/
 theorem cursor_remove_refines (ed : Ed) (hinv : Inv ed) (pfx : Path) (t : List Entry)
